@@ -138,12 +138,12 @@ Example value_space_examples :
 Proof. vm_compute. repeat split; reflexivity. Qed.
 
 (** on non-empty values ICValueHasher::isDuplicateOf (ceq) is the value-space equality of the specification *)
-Theorem T10_ceq_value_space : forall a b, cv_ty a <> TNone -> cv_ty b <> TNone -> cv_raw a <> [] -> cv_raw b <> [] ->
+Theorem T10_ceq_value_space : forall a b, kind_of (cv_ty a) <> TNone -> kind_of (cv_ty b) <> TNone -> cv_raw a <> [] -> cv_raw b <> [] ->
   ceq a b = spec_veq a b.
 Proof.
   intros a b Ha Hb Ra Rb. unfold ceq, spec_veq.
-  destruct (cv_ty a) eqn:Ea; try (exfalso; apply Ha; reflexivity);
-  destruct (cv_ty b) eqn:Eb; try (exfalso; apply Hb; reflexivity);
+  destruct (kind_of (cv_ty a)) eqn:Ea; try (exfalso; apply Ha; reflexivity);
+  destruct (kind_of (cv_ty b)) eqn:Eb; try (exfalso; apply Hb; reflexivity);
   destruct (cv_raw a); try (exfalso; apply Ra; reflexivity); destruct (cv_raw b); try (exfalso; apply Rb; reflexivity);
   reflexivity.
 Qed.
